@@ -47,6 +47,12 @@ class Q(P):
 
 
 @dataclass(eq=False)
+class D:
+    """a second variable the base rule joins over ("empty_join"): its domain is empty / no value of it ever matches"""
+    v: int
+
+
+@dataclass(eq=False)
 class View:
     p: P = None
 
@@ -94,7 +100,17 @@ def run_case(case) -> list:
                 out.append(OPS[op](lhs, rhs))
             return out
 
-        q = an(entity(views, *conds_of(case["prog"])))
+        head = conds_of(case["prog"])
+        if case.get("empty_join") == 1:
+            # the base rule also joins over a variable with an EMPTY domain that no other branch mentions
+            d = let(D, [], name="d")
+            head = head + [d.v == x.a]
+        elif case.get("empty_join") == 2:
+            # the base rule starts with an exists(...) that holds for no element (Exists drops its false rows)
+            from krrood.entity_query_language.entity import exists
+            d = let(D, [D(-99)], name="d")
+            head = [exists(d, d.v == x.a)] + head
+        q = an(entity(views, *head))
 
         def body(rule):
             if rule["tag"] is not None:
@@ -183,7 +199,17 @@ def snippet(case) -> str:
             return f"not_(x.{ATTRS[a]} == {rv})"
         return ", ".join(f"x.{ATTRS[a]} {OPNAMES[o]} " + (str(rv) if rk == 0 else f"x.{ATTRS[rv]}") for a, o, rk, rv in r["conds"])
 
-    lines.append(f"q = an(entity(views, {conds(case['prog'])}))")
+    if case.get("empty_join") == 1:
+        lines.append("@dataclass(eq=False)\nclass D:\n    v: int")
+        lines.append("d = let(D, [], name='d')        # the base rule joins over a variable with an empty domain")
+        lines.append(f"q = an(entity(views, {conds(case['prog'])}, d.v == x.a))")
+    elif case.get("empty_join") == 2:
+        lines.append("from krrood.entity_query_language.entity import exists")
+        lines.append("@dataclass(eq=False)\nclass D:\n    v: int")
+        lines.append("d = let(D, [D(-99)], name='d')  # the base rule starts with an exists(...) that holds nowhere")
+        lines.append(f"q = an(entity(views, exists(d, d.v == x.a), {conds(case['prog'])}))")
+    else:
+        lines.append(f"q = an(entity(views, {conds(case['prog'])}))")
     def body(r, ind):
         pad = "    " * ind
         wrote = False
@@ -227,6 +253,19 @@ def atom_term(a) -> str:
     attr, op, rk, rv = a
     rhs = f"(RConst {z(rv)})" if rk == 0 else f"(RAttr {rv})"
     return f"(Atom {attr} {CMPS[op]} {rhs})"
+
+
+UNSAT = [[0, 2, 0, 0], [0, 4, 0, 0]]        # x.a < 0 and x.a > 0
+
+
+def coq_prog(case):
+    """the program as the Coq side reads it: with "empty_join" the base rule holds for no element"""
+    if case.get("empty_join"):
+        d = dict(case["prog"])
+        d["conds"] = UNSAT
+        d.pop("form", None)
+        return d
+    return case["prog"]
 
 
 def rule_term(r) -> str:
@@ -599,6 +638,33 @@ def has_form(case, form) -> bool:
     return bool(found)
 
 
+def gen_case_empty_join(rng, good):
+    """a program whose base rule yields NO rows (it joins over a variable with an empty domain, or starts with an exists(...)
+    that holds nowhere) and whose top-level chain continues with next_rules only: every next_rule must still fire.
+    (alternatives of the top-level chain are turned into next_rules: whether an else-if branch fires when there is no
+    binding of the base rule at all is not settled by the property text)"""
+    while True:
+        c = gen_case(rng, good, 5)
+        if c["prog"]["body"] and len(c["world"]) >= 1:
+            break
+    c.pop("stages", None)
+    c.pop("mid_evals", None)
+
+    def chain(r):
+        r["body"] = [["N" if k == "A" else k, sub] for k, sub in r["body"]]
+        for k, sub in r["body"]:
+            if k == "N":
+                chain(sub)
+
+    chain(c["prog"])
+    if not any(k == "N" for k, _ in c["prog"]["body"]):
+        k0, sub0 = c["prog"]["body"][-1]
+        c["prog"]["body"][-1] = ["N", sub0]
+        chain(sub0)
+    c["empty_join"] = rng.choice([1, 1, 2])
+    return c
+
+
 def all_forests(n):
     if n == 0:
         yield []
@@ -669,7 +735,7 @@ def evaluate(cases, model_ok):
     impl = run_impl_bulk(cases)
     exprs = []
     for c in cases:
-        pt, wt = rule_term(c["prog"]), world_term(c["world"])
+        pt, wt = rule_term(coq_prog(c)), world_term(c["world"])
         if model_ok:
             exprs += [f"model_sx {pt} {wt}", f"spec_sx {pt} {wt}", f"fragW_sx {pt} {wt}"]
         else:
@@ -944,6 +1010,10 @@ def run(tier: str, seed: int, replay=None) -> int:
                 add_forms(rng5, c1)      # predicates / not_ as whole branch conditions (C08-k)
             cases.append(c1)
             origin.append("random")
+        rng6 = core.Rng(seed).fork(32)
+        for _ in range(150 if tier == "quick" else 2000):
+            cases.append(gen_case_empty_join(rng6, good))
+            origin.append("random")
         if tier == "thorough":
             rng2 = core.Rng(seed).fork(88)
             for n in range(0, 5):
@@ -994,6 +1064,7 @@ def run(tier: str, seed: int, replay=None) -> int:
         count_kinds(c["prog"])
         s_ok = spec_matches(impl, s)
         dist["other_condition_forms"] = dist.get("other_condition_forms", 0) + (1 if c.get("forms") else 0)
+        dist["base_rule_without_rows"] = dist.get("base_rule_without_rows", 0) + (1 if c.get("empty_join") else 0)
         if model_ok and not s_ok and c.get("forms") and "K_leafflag" in open_classes and has_form(c, 1) \
                 and case_class(fr) != "U_unsettled":
             pending_forms.append((c, org, impl, m, s, fr))
